@@ -30,13 +30,13 @@ ASSUMPTIONS = ['only variables with the standard dimensions are modelled; files 
                'sliceDimensions with two index lists in one call (POINTS path) is not modelled here (C01 drives it); after a selection that leaves a non-positive TSTEP attribute the sequence stops (TFLAG re-creation is modelled for positive steps only)',
                'eval/stack directly on a netCDF4-backed ioapi object raise TypeError (as for C01) and are not generated as first step of a disk-read file']
 TECHNIQUE = 'Coq proof (invariant by induction over operation sequences) + vm_compute refutation witnesses + differential correspondence on random operation sequences'
-LEVEL_TEXT = ('Theorems (Props/C10.v, closed under the global context) over a structure-level Gallina model of the IOAPI wrappers, describing the '
-              'code as repaired by fixes/C10-renameVariable-varlist.patch and fixes/C10-apply-vglvls.patch: from any coherent file every step of copy, '
-              'subsetVariables (non-empty), renameVariable, sliceDimensions, applyAlongDimensions (LAY/ROW/COL any function; x[::2] on TSTEP), stack that '
-              'completes yields a coherent file again, for sequences of any length (C10_step_coherent_partial, C10_run_coherent_partial, '
-              'C10_updatemeta_restores); eval, mask, interpSigma are modelled and tied by the correspondence but their proofs are not done; reducers '
-              'along TSTEP and an empty subset are refuted with vm_compute witnesses that replay on the library (C10_apply_tstep_refuted, '
-              'C10_subset_empty_refuted) = known findings. Tie H: all encodings after every step.')
+LEVEL_TEXT = ('Theorems (Props/C10.v, closed under the global context) over a structure-level Gallina model of the IOAPI wrappers (code as repaired by '
+              '05b5c90 and 5e14045): from any coherent file every step of the FULL operation set of the property - copy, subsetVariables (non-empty), '
+              'renameVariable, sliceDimensions (any selectors, one call over several dimensions), applyAlongDimensions (LAY/ROW/COL any function; x[::2] on '
+              'TSTEP), eval, mask, stack, interpSigma - that completes yields a coherent file again, for sequences of any length '
+              '(C10_step_coherent_partial, C10_run_coherent_partial, C10_updatemeta_restores); coherence implies the structural keys of the library\'s own '
+              'audit_meta (C10_audit_implied); reducers along TSTEP and an empty subset are refuted with vm_compute witnesses that replay on the library '
+              '(C10_apply_tstep_refuted, C10_subset_empty_refuted) = known findings. Tie H: all encodings after every step; audit_meta as secondary oracle.')
 LEVEL_NOTE = 'Trusted: Coq kernel + vm_compute; the correspondence harness; TFLAG re-creation modelled within one day only.'
 
 
